@@ -13,7 +13,10 @@ logging.disable(logging.WARNING)
 warnings.filterwarnings('ignore')
 
 TRUSTED = ['per-pixel functions are regenerated from the source by harness/translate/colour.py (symbolic tensor interpreter); '
-           'image layout handling (NCHW / HWC, batch) is validated by calling the real functions on images and batches',
+           'image layout handling (NCHW / HWC, batch), HSV and the LMS pipeline are regenerated at the tensor level by '
+           'harness/translate/colourtensors.py and proved to be the per-pixel functions at every pixel (C15_gen_layout_*); the tensor '
+           'semantics of lean/OdakModel/TensorPrelude.lean (reshape, permute, matmul, broadcasting, max, gather) are trusted and compared '
+           'with torch on whole images by harness/props/gencolour.py',
            'torch.pinverse of an invertible matrix is its inverse']
 ASSUMPTIONS = ['float32 API: tolerance 2e-5 absolute on [0,1] values, 2e-3 on Lab values; in-gamut colours']
 
@@ -218,6 +221,9 @@ def run(ctx):
         elif not torch.allclose(c, im, atol=2e-3) or m.shape != im.shape or not torch.allclose(m, im, atol=2e-3):
             ctx.violation('sRGB -> Lab -> sRGB (or the colour transfer of an image onto itself) does not return the %dx%d image' % (hh, ww), recl,
                           {'what': 'lab_roundtrip', 'fn': 'image'})
+    # ---- executable tie of the regenerated TENSOR-LEVEL definitions (layouts, HSV, LMS pipeline) on whole images
+    from .gencolour import check_generated_colour
+    check_generated_colour(ctx)
     # ---- correspondence with the regenerated functions
     if outs is not None:
         it = iter(outs)
